@@ -104,8 +104,14 @@ def _read(ck: Checker, rd: Func) -> None:
                             ck.require(ok2, "C14.passthrough", rd, d, "normalisation is dos2unix(chunk) or the chunk itself", f"hashed data is {norm(v)}", construct=f"{rd.qual}: {d.text()}")
     augs = [n for n in g.nodes.values() if n.kind == "stmt" and isinstance(n.ast, (ast.AugAssign, ast.Assign)) and norm(n.ast.target if isinstance(n.ast, ast.AugAssign) else n.ast.targets[0]) == "self.total_read"]
     okc = len(augs) >= 1
+    upd = [(n, norm(c.args[0])) for n in g.nodes.values() for c in calls_at(n) if is_method_call(c, "update") and norm(c.func.value) == "self.hasher" and c.args]
     for a in augs:
-        okc = okc and isinstance(a.ast, ast.AugAssign) and isinstance(a.ast.op, ast.Add) and isinstance(a.ast.value, ast.Call) and call_name(a.ast.value) == "len" and hashed is not None and norm(a.ast.value.args[0]) == norm(hashed)
+        okc = okc and isinstance(a.ast, ast.AugAssign) and isinstance(a.ast.op, ast.Add) and isinstance(a.ast.value, ast.Call) and call_name(a.ast.value) == "len" and bool(a.ast.value.args)
+        if okc:
+            y = norm(a.ast.value.args[0])
+            # the update(s) this counter statement can follow (or precede) on one path hash exactly that value
+            around = [t for n, t in upd if a.id in g.reach([n.id], skip_edge=lambda p, l, q: l == "exc") or n.id in g.reach([a.id], skip_edge=lambda p, l, q: l == "exc")]
+            okc = bool(around) and all(t == y for t in around)
     ck.require(okc, "C14.passthrough", rd, augs[0] if augs else rd.node, "byte counter advances by len() of what was hashed",
                f"byte counter is not advanced by len(<hashed bytes>): {[a.text() for a in augs]}", construct=f"{rd.qual} / total_read")
 
@@ -215,8 +221,10 @@ def _nul(ck: Checker) -> None:
     ok = False
     for t in g.nodes.values():
         e = t.ast
-        if t.kind == "test" and isinstance(e, ast.Compare) and isinstance(e.ops[0], ast.In) and isinstance(e.left, ast.Constant) and e.left.value == b"\x00" and norm(e.comparators[0]) == fn.pos_params[0]:
-            tsucc = [d for lab, d in t.succ if lab == "T"]
+        if t.kind == "test" and isinstance(e, ast.Compare) and isinstance(e.ops[0], (ast.In, ast.NotIn)) and isinstance(e.left, ast.Constant) and e.left.value == b"\x00" and norm(e.comparators[0]) == fn.pos_params[0]:
+            # the edge that means "a NUL byte is in the block"
+            nul_lab = "T" if isinstance(e.ops[0], ast.In) else "F"
+            tsucc = [d for lab, d in t.succ if lab == nul_lab]
             r = g.reach(tsucc, include_start=True)
             rets = [g.nodes[i] for i in r if g.nodes[i].kind == "stmt" and isinstance(g.nodes[i].ast, ast.Return)]
 
